@@ -33,7 +33,8 @@ theorem valid_unfold (c : Cfg) : Valid c ↔
      GreaterThanOne c.CompactionRatio ∧ Finite c.CompactionRatio ∧
      0 < c.ReadOnlyTxTTL ∧ 0 < c.ReadWriteTxTTL ∧ 0 < c.IdleTxTimeout ∧ 0 < c.TxCleanupInterval ∧
      (1 ≤ c.TxWarningThreshold ∧ c.TxWarningThreshold ≤ 99) ∧
-     (c.TxWarningThreshold < c.TxCriticalThreshold ∧ c.TxCriticalThreshold ≤ 99)) :=
+     (c.TxWarningThreshold < c.TxCriticalThreshold ∧ c.TxCriticalThreshold ≤ 99) ∧
+     (ValidUTF8 c.WALDir ∧ ValidUTF8 c.SSTDir)) :=
   Kevo.Proofs.Config.valid_iff_conj c
 
 /-- the error reported names a constraint that is really violated; there is one message per constraint. -/
@@ -58,6 +59,17 @@ theorem save_load_id (J : Codec Doc) (hJ : J.Laws) (c : Cfg) (d : Dir Doc) (hv :
     (hio : d.manifest ≠ .unreadable) :
     ∃ d', save J c d = (none, d') ∧ load J d' = .ok c ∧ d'.tmp = none ∧ d'.present = true :=
   Kevo.Proofs.Config.save_load_id J hJ c d hv he hio
+
+/-- (3, FULL STRENGTH since the repair of KF-C20-utf8) EVERY configuration that passes validation is stored and loads back
+    unchanged: `Encodable` follows from `Valid` (directory paths are valid UTF-8 — constraint 16 —, the ratio is finite)
+    plus `representable` (every integer is a value of its Go type: true of every `config.Config` a Go program can hold). -/
+theorem save_load_id_valid (J : Codec Doc) (hJ : J.Laws) (c : Cfg) (d : Dir Doc) (hv : Valid c) (hr : representable c)
+    (hio : d.manifest ≠ .unreadable) :
+    ∃ d', save J c d = (none, d') ∧ load J d' = .ok c ∧ d'.tmp = none ∧ d'.present = true :=
+  Kevo.Proofs.Config.save_load_id J hJ c d hv (Kevo.Proofs.Config.valid_encodable c hv hr) hio
+
+theorem valid_encodable (c : Cfg) (hv : Valid c) (hr : representable c) : Encodable c :=
+  Kevo.Proofs.Config.valid_encodable c hv hr
 
 /-- (4) whatever is loaded satisfies every documented constraint. -/
 theorem load_validates (J : Codec Doc) (d : Dir Doc) (c : Cfg) (h : load J d = .ok c) : Valid c :=
@@ -112,8 +124,9 @@ theorem crash_during_save (J : Codec Doc) (hJ : J.Laws) (c : Cfg) (d : Dir Doc) 
   ⟨Kevo.Proofs.Config.saveTrace_last J c d, Kevo.Proofs.Config.crash_during_save J hJ c d he⟩
 
 /-- (9) the built-in defaults (regenerated from NewDefaultConfig) are valid for every database path. -/
-theorem default_valid (sub : String → GoStr) (h : ∀ s, sub s ≠ []) : Valid (defaults sub) :=
-  Kevo.Proofs.Config.default_valid sub h
+theorem default_valid (sub : String → GoStr) (h : ∀ s, sub s ≠ []) (hu : ∀ s, ValidUTF8 (sub s)) :
+    Valid (defaults sub) :=
+  Kevo.Proofs.Config.default_valid sub h hu
 
 /-! ### non-vacuity and necessity of the hypotheses -/
 
@@ -124,7 +137,7 @@ theorem laws_consistent : goCodec.Laws := Kevo.Proofs.Config.goCodec_laws
 def sampleCfg : Cfg := defaults (fun _ => [0x77])
 
 theorem sample_valid_encodable : Valid sampleCfg ∧ Encodable sampleCfg := by
-  refine ⟨default_valid _ (by intro _; simp), ?_, ?_, ?_⟩
+  refine ⟨default_valid _ (by intro _; simp) (by intro _; decide), ?_, ?_, ?_⟩
   · intro s hs
     simp [sampleCfg, defaults, zero, strings] at hs
     subst hs
@@ -149,40 +162,26 @@ example : ∃ e, e ≠ .notFound ∧ openConfig goCodec sampleCfg { manifest := 
 /-- (2) is not vacuous: the zero configuration is invalid -/
 example : ¬ Valid zero := fun h => absurd (h 0 (by decide)) (by simp [Constraint, zero])
 
-/-- `Encodable` cannot be dropped from (3) — KNOWN FINDING KF-C20-utf8: a directory name that is not valid UTF-8
-    passes every documented constraint, is stored without error, and loads back as a DIFFERENT configuration
-    (each offending byte replaced by U+FFFD), under a codec that satisfies the assumed laws and behaves like
-    encoding/json on such strings (component `config` shows the real code does exactly this). -/
+/-- HISTORY (KF-C20-utf8, repaired): before the repair a directory name that is not valid UTF-8 passed every constraint, was
+    stored without error and loaded back as a DIFFERENT configuration (each offending byte replaced by U+FFFD). The
+    configuration below is that witness; `Validate` now rejects it (constraint 16), so `save` writes nothing — while the
+    codec would still rewrite it if it were let through (the hazard is real, the guard is what removes it). -/
 def badUtf8Cfg : Cfg := { sampleCfg with WALDir := [0x77, 0xff] }
 
-theorem save_load_id_needs_encodable :
-    goCodec.Laws ∧ Valid badUtf8Cfg ∧ ¬ Encodable badUtf8Cfg ∧
-    ∃ d' c', save goCodec badUtf8Cfg {} = (none, d') ∧ load goCodec d' = .ok c' ∧ c' ≠ badUtf8Cfg ∧
-      c'.WALDir = [0x77, 0xef, 0xbf, 0xbd] := by
-  have hv : Valid badUtf8Cfg := by
-    rw [valid_unfold]
-    simp [badUtf8Cfg, sampleCfg, defaults, zero, GreaterThanOne, Finite]
+theorem bad_utf8_rejected :
+    ¬ Valid badUtf8Cfg ∧ validate badUtf8Cfg = some 16 ∧
+    (∀ d : Dir GoDoc, (save goCodec badUtf8Cfg d).2 = d) ∧
+    (mapStrings sanitize badUtf8Cfg).WALDir = [0x77, 0xef, 0xbf, 0xbd] := by
+  have hval : validate badUtf8Cfg = some 16 := by
+    simp [validate, guards, badUtf8Cfg, sampleCfg, defaults, zero, firstTrue, Ratio.le, Ratio.isNaN, Ratio.isInf]
     decide
-  have hval : validate badUtf8Cfg = none := (validate_iff _).2 hv
-  have hfin : allFinite badUtf8Cfg = true := by
-    simp [allFinite, ratios, badUtf8Cfg, sampleCfg, defaults, zero, Ratio.isFinite]
-  refine ⟨laws_consistent, hv, ?_, ⟨true, .data ⟨mapStrings sanitize badUtf8Cfg, true⟩, none⟩,
-    mapStrings sanitize badUtf8Cfg, ?_, ?_, ?_, ?_⟩
-  · intro ⟨hs, _, _⟩
-    have := hs [0x77, 0xff] (by simp [strings, badUtf8Cfg])
-    exact absurd this (by decide)
-  · simp [save, hval, goCodec, hfin]
-  · have hval' : validate (mapStrings sanitize badUtf8Cfg) = none := by
-      apply (validate_iff _).2
-      rw [valid_unfold]
-      simp [mapStrings, badUtf8Cfg, sampleCfg, defaults, zero, GreaterThanOne, Finite]
-      decide
-    simp [load, goCodec, hval']
-  · intro h
-    have : (mapStrings sanitize badUtf8Cfg).WALDir = badUtf8Cfg.WALDir := by rw [h]
-    revert this
-    simp [mapStrings, badUtf8Cfg]
-    decide
+  refine ⟨?_, hval, ?_, ?_⟩
+  · intro hv
+    have := (validate_iff _).2 hv
+    rw [hval] at this
+    cases this
+  · intro d
+    simp [save, hval]
   · simp [mapStrings, badUtf8Cfg]
     decide
 
